@@ -52,6 +52,10 @@ def cvc5_check(smt2, timeout_s):
 def work(args):
     """verify one contract (or lemma) in a worker process; returns plain data"""
     key, src, tier, seed = args
+    shard = None
+    if "#" in key:      # "contract key#i/n": this worker solves every n-th obligation starting at i
+        key, sh = key.rsplit("#", 1)
+        shard = tuple(int(x) for x in sh.split("/"))
     t0 = time.time()
     out = {"key": key, "obligations": [], "info": None, "error": None, "unsupported": None}
     try:
@@ -73,7 +77,9 @@ def work(args):
         out["info"] = info
         out["dropped"] = sorted(eng.dropped)
         replayed = {}
-        for ob in obs:
+        for oi, ob in enumerate(obs):
+            if shard is not None and oi % shard[1] != shard[0]:
+                continue
             if ob.kind == "cover-any":
                 st, tt = "unsat", 0.0
                 for pc in ob.alts:
@@ -166,7 +172,14 @@ def main(argv=None):
 
     running = {}   # key -> (process, parent_conn, start time, attempt)
     attempts = {}
-    queue = list(dict.fromkeys(todo))
+
+    def expand(k):
+        c = eng.contracts.get(k)
+        n = getattr(c, "shards", 1) if c is not None else 1
+        return [k] if n <= 1 else [f"{k}#{i}/{n}" for i in range(n)]
+
+    queue = [x for k in dict.fromkeys(todo) for x in expand(k)]
+    shard_parts = {}
     while queue or running:
         while queue and len(running) < a.jobs:
             k = queue.pop(0)
@@ -201,13 +214,28 @@ def main(argv=None):
                 queue.append(k)   # one retry for a worker that vanished
                 continue
             done.add(k)
+            if "#" in k:
+                base, sh = k.rsplit("#", 1)
+                n = int(sh.split("/")[1])
+                shard_parts.setdefault(base, []).append(r)
+                if len(shard_parts[base]) < n:
+                    continue
+                parts = shard_parts.pop(base)
+                r = dict(parts[0])
+                r["key"] = base
+                r["obligations"] = [o for p_ in parts for o in p_.get("obligations", [])]
+                r["error"] = next((p_["error"] for p_ in parts if p_.get("error")), None)
+                r["unsupported"] = next((p_["unsupported"] for p_ in parts if p_.get("unsupported")), None)
+                done.add(base)
             results.append(r)
             # assume-guarantee closure: every callee contract that was assumed must itself be
             # discharged on this run, unless it is a trusted external
             for callee in (r.get("info") or {}).get("calls", []):
                 c = eng.contracts.get(callee)
-                if c is not None and not c.trusted and callee not in done and callee not in running:
-                    queue.append(callee)
+                if c is not None and not c.trusted and callee not in done and callee not in running \
+                        and not any(q == callee or q.startswith(callee + "#") for q in queue) \
+                        and not any(rk.startswith(callee + "#") for rk in running) and callee not in shard_parts:
+                    queue.extend(expand(callee))
     enum_results = run_enumerators(eng, prop, a, seed, results, ctx)
     return report.finish(eng, prop, a, seed, results, time.time() - t0, enum_results)
 
